@@ -13,7 +13,12 @@ RULE = ("one executor case per operator application (kinds cx.bin/asg[.r].<op>, 
         "operands (small integers and fractions, zero parts with probability 1/4, purely real / purely imaginary operands, zero "
         "divisors); float tier Complex<f64> vs the primitive-float model: components 0 or of magnitude 1e-100..1e100 (random 53-bit "
         "mantissa), purely real / imaginary operands, cancelling products, real scalars on either side, plus non-finite / overflowing "
-        "/ subnormal operands (tie only); distinct = distinct executor line; non-trivial = both operands have a non-zero component")
+        "/ subnormal operands (tie only); in both tiers structured operand classes (structured_cases): RELATED operands z op w with "
+        "w = z, conj z, -z, -conj z, iz, (im z, re z) under all four operators and the ordering; |re| = |im| with every sign pattern on "
+        "either side; the units 1, -1, +-i, +-1+-i, 2, 1/2, 2i, -i/2 and unit-modulus 3/5+4/5i on either side, with each other and "
+        "through every unary kind; real scalars 1, -1, 2, -2, 1/2, -1/2, 0 and scalars equal to a part of the operand (f64: also on "
+        "the left); f64 only: parts in the ratio 2^-k, k = 0..60 (abs, Signed::abs, abs_sqr, *, /; quick: one parity of k per seed "
+        "plus every k in 20..30); distinct = distinct executor line; non-trivial = both operands have a non-zero component")
 TRUSTED = ["Coq 8.16.1 kernel + vm_compute (primitive floats: bit-exact IEEE-754 binary64)",
            "Rust executor /verif/harness (Rat = i128 rationals; harness/src/k_complex.rs)",
            "python driver: generators, Fraction reference formulae, stream comparators",
@@ -42,7 +47,10 @@ MANIFEST = dict(
           "product, 7.1*2^-53 |z|/|w| for the quotient, one rounding per component for + - z*r z/r, 3*2^-53 for |z|. The model is run against the implementation on every operator "
           "variant (Complex<Rat> vs Qc exactly on a full 4^4 grid plus random operands, Complex<f64> vs primitive floats), and independent "
           "Fraction formulae search for a failing input (exact equality on rationals; normwise 8*2^-53 on f64 over 1e-100..1e100; assignment "
-          "form bitwise equal to binary form on every f64 operand pair including non-finite ones; trichotomy/transitivity on triples)."),
+          "form bitwise equal to binary form on every f64 operand pair including non-finite ones; trichotomy/transitivity on triples). "
+          "Besides independent random operands both tiers run structured operand classes: equal, conjugate, opposite, quarter-turned "
+          "and transposed operand pairs, |re| = |im|, the units (1, -1, +-i, 1+-i, 2, 1/2, unit modulus 3/5+4/5i) on either side, unit "
+          "real scalars on either side, and (f64) parts in every ratio 2^0 .. 2^-60."),
     note=("The accuracy theorems are about the float instance of the model (IEEE-754 binary64 as specified by Coq's FloatAxioms / Flocq), "
           "which is tied to the Rust code by differential execution on the sampled cases (all float cases bit-identical); that Rust's f64 "
           "operations are those IEEE operations is an assumption. Overflow/underflow/NaN behaviour is outside the property."),
